@@ -2,11 +2,11 @@ package checks
 
 // C14 — inline completions never nest deeper than the dispatch limit.
 //
-// Engine E1 over real descriptors. A program is a cycle of length 1..3 over 16 operation kinds
+// Engine E1 over real descriptors. A program is a cycle of length 1..3 over 17 operation kinds
 // {conn read, conn write, FIFO read, FIFO write, regular-file read, regular-file write, accept, packet read,
 // packet write, multicast-peer read, multicast-peer write; and five that complete at once with an error: read at
 // end of stream on a connection and on a FIFO, write on a reset connection, oversized datagram through a packet
-// conn and through a multicast peer} (all 4368 cycles) and a chain length in
+// conn and through a multicast peer, accept on a listener that was shut down} (all 5202 cycles) and a chain length in
 // {31,32,33,34,70}; every object is pre-loaded so that each operation can complete immediately; the
 // completion callback of step i issues step i+1 on the next kind of the cycle.
 // Oracle: a harness counter incremented on callback entry and decremented on exit never exceeds
@@ -33,7 +33,7 @@ import (
 
 var c14Kinds = []string{"conn-read", "conn-write", "fifo-read", "fifo-write", "file-read", "file-write", "accept", "pkt-read", "pkt-write", "mc-read", "mc-write",
 	// operations that complete immediately with an error: the accounting must unwind for them exactly as for successes
-	"conn-read-eof", "fifo-read-eof", "conn-write-epipe", "pkt-write-toobig", "mc-write-toobig"}
+	"conn-read-eof", "fifo-read-eof", "conn-write-epipe", "pkt-write-toobig", "mc-write-toobig", "accept-fails"}
 
 type c14Env struct {
 	x       *engine.X
@@ -69,6 +69,7 @@ type c14Env struct {
 	eofTcp  sonic.Conn
 	eofFifo sonic.File
 	rstTcp  sonic.Conn
+	deadLst sonic.Listener
 	closers []func()
 }
 
@@ -131,6 +132,16 @@ func (e *c14Env) need(kind string, count int) {
 				kern.Abort(p)
 			}
 		})
+	case "accept-fails":
+		// a listener whose socket was shut down for reading: accept(2) fails at once (EINVAL), every time
+		addr := kern.NextLoopback()
+		l, err := sonic.Listen(ioc, "tcp", kern.AddrString(addr, 0), sonicopts.Nonblocking(true))
+		if err != nil {
+			engine.HarnessError("Listen: %v", err)
+		}
+		syscall.Shutdown(l.RawFd(), syscall.SHUT_RD)
+		e.deadLst = l
+		e.closers = append(e.closers, func() { l.Close() })
 	case "fifo-read-eof":
 		r, w, _ := kern.Pipe(0)
 		f, err := sonic.Open(ioc, fmt.Sprintf("/proc/self/fd/%d", r), syscall.O_RDONLY|syscall.O_NONBLOCK, 0)
@@ -308,6 +319,18 @@ func (e *c14Env) step(i int) {
 			e.enter(i)
 			if err != io.EOF || n != 0 {
 				e.bad(i, "read at end of stream completed with err=%v n=%d, inline it reports io.EOF", err, n)
+			}
+			next()
+			e.leave(i)
+		})
+	case "accept-fails":
+		e.deadLst.AsyncAccept(func(err error, c sonic.Conn) {
+			e.enter(i)
+			if err == nil || c != nil {
+				e.bad(i, "accept on a listener that was shut down completed with err=%v conn=%v", err, c)
+				if c != nil {
+					c.Close()
+				}
 			}
 			next()
 			e.leave(i)
@@ -642,7 +665,7 @@ func C14(tier string) *engine.Report {
 	d := c14DFS(tier)
 	tot.Add(d.Run(), rep)
 	tot.Add(c14NestedDFS(tier).Run(), rep)
-	tot.Fill(rep, "all 4368 cycles of length 1..3 over 16 operation kinds (11 that succeed, 5 that complete at once with an error: end of stream on a connection and a FIFO, write on a reset connection, oversized datagram on a packet conn and a multicast peer) x chain lengths {31,32,33,34,70}, every object pre-loaded so each step can complete immediately, each callback issuing the next step; "+
+	tot.Fill(rep, "all 5202 cycles of length 1..3 over 17 operation kinds (11 that succeed, 6 that complete at once with an error: accept on a listener shut down for reading, end of stream on a connection and a FIFO, write on a reset connection, oversized datagram on a packet conn and a multicast peer) x chain lengths {31,32,33,34,70}, every object pre-loaded so each step can complete immediately, each callback issuing the next step; "+
 		"nesting counter, IO.Dispatched after unwinding, per-step result and exactly-once are checked; every case is non-trivial (the chain crosses the dispatch limit, except length 31 which stays just below it); plus 135 nested cases: 1/2/31 inline completions of each of 9 kinds, then a read/accept of each of 5 kinds issued from that depth with nothing ready, completed later by the poller, then 33 more inline operations", 0)
 	return rep
 }
